@@ -124,6 +124,40 @@ def check_subsample_uniform(case, rec):
                 raise Violation("subsample-cross-moment", f"counts={counts} n={n}: E[X_{i} X_{j}] = {sx[i, j] / M:.4f}, hypergeometric {eij:.4f}")
 
 
+def check_subsample_sparse(case, rec):
+    """A small draw from a large total (n << T, down to 50 n <= T): every item equally likely means that the number of drawn
+    items falling into ANY prefix of the categories is hypergeometric(T, T_prefix, n) - compared on mean and second moment."""
+    counts, n, seed, M = case["counts"], case["n"], case["np_seed"], case["draws"]
+    T, K = sum(counts), len(counts)
+    rec.note(case, K >= 2 and 0 < n < T, [f"K={'<=8' if K <= 8 else '>8'}", f"T/n={'>=50' if T >= 50 * n else '<50'}", case.get("as", "list")])
+    arg = np.array(counts) if case.get("as") == "array" else list(counts)
+    cum = np.concatenate([[0], np.cumsum(counts)])
+    prefixes = sorted({p for p in (1, K // 4, K // 2, (3 * K) // 4, K - 1) if 0 < p < K and 0 < cum[p] < T})
+    g1 = np.zeros(len(prefixes))
+    g2 = np.zeros(len(prefixes))
+    np.random.seed(seed)
+    for _ in range(M):
+        idx, cnt = pyrepseq.subsample(arg, n)
+        idx, cnt = np.asarray(idx, dtype=int), np.asarray(cnt)
+        if int(cnt.sum()) != n:
+            raise Violation("subsample-sum", f"K={K} T={T} n={n}: {int(cnt.sum())} items drawn")
+        for a, pfx in enumerate(prefixes):
+            g = float(cnt[idx < pfx].sum())
+            g1[a] += g
+            g2[a] += g * g
+    for a, pfx in enumerate(prefixes):
+        Tp = int(cum[pfx])
+        hi = min(n, Tp)
+        e1 = n * Tp / T
+        var = n * (Tp / T) * (1 - Tp / T) * (T - n) / (T - 1)
+        e2 = var + e1 * e1
+        if abs(g1[a] / M - e1) > hoeffding(M, hi) + 1e-12:
+            raise Violation("subsample-sparse-mean", f"K={K} T={T} n={n}: the first {pfx} categories ({Tp} items) receive {g1[a] / M:.4f} items "
+                                                     f"per draw, hypergeometric {e1:.4f} (bound {hoeffding(M, hi):.4f}, {M} draws)")
+        if abs(g2[a] / M - e2) > hoeffding(M, hi * hi) + 1e-12:
+            raise Violation("subsample-sparse-second-moment", f"K={K} T={T} n={n}: E[G^2] for the first {pfx} categories = {g2[a] / M:.4f}, hypergeometric {e2:.4f}")
+
+
 # ---------------------------------------------------------------------------
 def check_downsample(case, rec):
     elems, m, seed, how = case["elems"], case["maxseqs"], case["np_seed"], case["as"]
@@ -314,6 +348,22 @@ def uniform_case(draw, tier="quick"):
 
 
 @st.composite
+def sparse_case(draw, tier="quick"):
+    fam = draw(st.sampled_from(["ones", "few_big", "mixed"]))
+    if fam == "ones":
+        counts = [1] * draw(st.integers(150, 1000))
+    elif fam == "few_big":
+        counts = draw(st.lists(st.integers(60, 600), min_size=2, max_size=6))
+    else:
+        counts = draw(st.lists(st.sampled_from([0, 1, 1, 1, 2, 40, 300]), min_size=20, max_size=300))
+        counts[0] += 60
+    T = sum(counts)
+    n = draw(st.sampled_from([1, 2, 3, 5, max(1, T // 50), max(1, T // 50 + 1), max(1, T // 20)]))
+    return {"counts": counts, "n": min(n, T - 1), "np_seed": draw(st.integers(0, 2 ** 32 - 1)), "draws": 2500,
+            "as": draw(st.sampled_from(["list", "array"]))}
+
+
+@st.composite
 def downsample_case(draw, tier="quick"):
     pool = ["CASSL", "CASSF", "CAWY", "CASSL", "C", ""]
     n = draw(st.integers(1, 12))
@@ -368,6 +418,7 @@ SUBS = [
     Sub("subsample", check_subsample, strategy=lambda t: subsample_case(t), budget=(4000, 40000)),
     Sub("subsample_reuse", check_subsample_reuse, strategy=lambda t: reuse_case(t), budget=(1500, 15000)),
     Sub("subsample_uniform", check_subsample_uniform, strategy=lambda t: uniform_case(t), budget=(48, 480)),
+    Sub("subsample_sparse", check_subsample_sparse, strategy=lambda t: sparse_case(t), budget=(8, 60)),
     Sub("downsample", check_downsample, strategy=lambda t: downsample_case(t), budget=(3000, 30000)),
     Sub("downsample_long", check_downsample_long, strategy=lambda t: downsample_long_case(t), budget=(20, 200)),
     Sub("downsample_uniform", check_downsample_uniform, strategy=lambda t: downsample_uniform_case(t), budget=(32, 320)),
